@@ -38,7 +38,8 @@ Perms == {s \in [1..NWit -> Range(WitNames)] : \A i, j \in 1..NWit : i # j => s[
 \* in which a witness' two values are adjacent in the channel are modelled (TMLight!Channel)
 \* -- the ones a gate-forced replay can produce, and enough to refute the properties.
 
-Cfg(mode) == [period |-> 100, drift |-> 5, num |-> 1, den |-> 3, mode |-> mode]
+Cfg(mode) == [period |-> 100, drift |-> 5, num |-> 1, den |-> 3, mode |-> mode,
+              rollback |-> ~Weak_PromotedWitnessStays]
 \* constant-level tables (evaluated once by TLC)
 WB == WorldBlocks(H)
 PersonaTab == [n \in PrimaryPersonas \cup WitnessPersonas |-> Persona(H, n)]
@@ -123,6 +124,9 @@ StoreSound == IsCall => Unsound(SC, act.pre, act.post, act.obs, act.now) = {}
 
 \* a header stored by forward verification was returned, identically, by a witness
 WitnessConfirmed == IsCall => Unconfirmed(SC, act.pre, act.post, act.obs, act.primary) = {}
+
+\* ... and not only by the primary itself in the role of a witness
+IndependentWitness == IsCall => SelfConfirmed(SC, act.pre, act.post, act.obs, act.primary) = {}
 
 \* when every witness was silent / sent an error / sent a different header, nothing is stored
 NoConfirmationFromSilence ==
